@@ -40,8 +40,14 @@ C07OK(rec) ==
             [] rec.op = "swap" -> Mpost = Mpre
             [] rec.op = "fls"  -> Mpost = Mpre /\ rec.ret = FlsLimbs(rec.x)
             [] OTHER -> FALSE
+C15OK(rec) ==
+    rec.op = "clear" =>
+       /\ rec.out = "ok" /\ ~rec.post.bad
+       /\ ClearContract(Members(ToSt(rec.pre)), rec.ev)
+       /\ ToSt(rec.post) = Empty
 VARIABLE i
 Judge(rec) ==
+    /\ (Level # 2 \/ C15OK(rec) \/ PrintT(<<"L2FAIL", "C15", rec.id>>))
     /\ (Level # 2 \/ C07OK(rec) \/ PrintT(<<"L2FAIL", "C07", rec.id>>))
     /\ (Level # 1 \/ StepOK(rec) \/ PrintT(<<"L1DRIFT", "heap", rec.id>>))
 TInit == i = 1
